@@ -59,9 +59,11 @@ Theorem C14_2d_interleave : forall T (O : ops T) x0 x1 nx y0 y1 ny (sched : list
 Proof. exact (fun T O => it2d_interleave O). Qed.
 
 (* over the reals the 2-D point at flat index k is (x-axis value at k mod nx, y-axis value at k / nx), corners are endpoints *)
-Theorem C14_2d_values : forall (x0 x1 : R) (nx : nat) (y0 y1 : R) (ny k : nat),
+(* guard 1 <= nx: the code computes index % cols and index / cols on usize (a zero column count panics; a grid with nx = 0 has no
+   points, so its iterators never evaluate this) *)
+Theorem C14_2d_values : forall (x0 x1 : R) (nx : nat) (y0 y1 : R) (ny k : nat), 1 <= nx ->
   steps2d_value Rops x0 x1 nx y0 y1 ny k = (steps_value Rops x0 x1 nx (k mod nx), steps_value Rops y0 y1 ny (k / nx)).
-Proof. exact steps2d_value_axes. Qed.
+Proof. exact (fun x0 x1 nx y0 y1 ny k _ => steps2d_value_axes x0 x1 nx y0 y1 ny k). Qed.
 
 Theorem C14_2d_corners : forall (x0 x1 : R) (nx : nat) (y0 y1 : R) (ny : nat), 1 <= nx -> 1 <= ny ->
   steps2d_value Rops x0 x1 nx y0 y1 ny 0 = (x0, y0) /\
@@ -91,6 +93,23 @@ Proof.
               (fun s H => conj (ws_fs_roundtrip s H) (fs_ws_roundtrip s H)))).
 Qed.
 
+(* READING of "each axis re-sorted ascending": the code SWAPS the two endpoints of each axis (it does not sort).  An ascending
+   positive axis therefore stays ascending (above) and a descending one stays descending (here): the orientation is kept, which is
+   exactly what makes the round trip the identity — an implementation that sorted could not round-trip a descending axis. *)
+Theorem C14_wavelength_frequency_descending : forall s, descending (fst s) -> descending (snd s) ->
+  descending (fst (to_fs s)) /\ descending (snd (to_fs s)).
+Proof. exact to_fs_descending. Qed.
+
+(* every `impl From<space> for space` (what `.into()` calls) is the named conversion *)
+Theorem C14_from_impls : forall x0 x1 nx y0 y1 ny,
+  from_ws_for_fs Rops TWO_PI x0 x1 nx y0 y1 ny = fs_from_wavelength_space Rops TWO_PI x0 x1 nx y0 y1 ny /\
+  from_sd_for_fs Rops x0 x1 nx y0 y1 ny = sd_as_frequency_space Rops x0 x1 nx y0 y1 ny /\
+  from_ws_for_sd Rops TWO_PI x0 x1 nx y0 y1 ny = sd_from_wavelength_space Rops TWO_PI x0 x1 nx y0 y1 ny /\
+  from_fs_for_sd Rops x0 x1 nx y0 y1 ny = sd_from_frequency_space Rops x0 x1 nx y0 y1 ny /\
+  from_fs_for_ws Rops TWO_PI x0 x1 nx y0 y1 ny = fs_as_wavelength_space Rops TWO_PI x0 x1 nx y0 y1 ny /\
+  from_sd_for_ws Rops TWO_PI x0 x1 nx y0 y1 ny = sd_as_wavelength_space Rops TWO_PI x0 x1 nx y0 y1 ny.
+Proof. exact from_impls_delegate. Qed.
+
 (* frequency <-> sum/difference: counts and centre preserved; round trip = identity IFF the two spans are equal *)
 Theorem C14_sumdiff : forall s : space R,
   (ax_n (fst (to_sd s)) = ax_n (fst s) /\ ax_n (snd (to_sd s)) = ax_n (snd s) /\
@@ -117,10 +136,20 @@ Theorem C14_conversions_compose : forall x0 x1 nx y0 y1 ny,
   on_space (ws_from_sum_diff_space Rops TWO_PI) (mk_space x0 x1 nx y0 y1 ny) = to_ws (of_sd (mk_space x0 x1 nx y0 y1 ny)).
 Proof. exact conversions_compose. Qed.
 
-(* a flat (signal, idler) list built from a grid is traversed as the same pairs in the same order *)
+(* a flat (signal, idler) list built from a grid is traversed as the same pairs in the same order.  Tie to the code: the GENERATED
+   description of SignalIdlerFrequencyArray / SignalIdlerWavelengthArray (both the sequential and the parallel iterator) is
+   chunks_exact(2) with the pair (a[0], a[1]) and the point map of the frequency / wavelength space; on that description the
+   pairing is chunk2; a trailing odd element is dropped *)
 Theorem C14_flat_list : forall A B (f : A * A -> B) (grid : list (A * A)),
   chunk2 (flatten2 grid) = grid /\ map f (chunk2 (flatten2 grid)) = map f grid.
 Proof. exact (fun A B f grid => conj (chunk2_flatten2 grid) (flat_list_is_grid f grid)). Qed.
+
+Theorem C14_flat_list_generated :
+  (farr_chunk = (2, (0, 1)) /\ warr_chunk = (2, (0, 1)) /\
+   (forall a b : R, farr_point a b = fs_point a b) /\ (forall a b : R, warr_point Rops TWO_PI a b = ws_point Rops TWO_PI a b)) /\
+  (forall A (l : list A), array_pairs farr_chunk l = chunk2 l /\ array_pairs warr_chunk l = chunk2 l) /\
+  (forall A (grid : list (A * A)) (x : A), chunk2 (flatten2 grid ++ [x]) = grid).
+Proof. exact (conj arrays_generated (conj (fun A l => conj (array_pairs_chunk2 l) (array_pairs_chunk2 l)) (fun A grid x => chunk2_odd grid x))). Qed.
 
 (* transpose_vec (the generated early return, ranges, read index and assertion of the out-of-place double loop): the matrix
    transpose for EVERY shape rows x cols, including rows = 0 and cols = 0 (then the vector is empty and so is the result).
@@ -156,7 +185,9 @@ Proof. exact (conj steps_value_Q2R steps2d_value_Q2R). Qed.
    operations rounded to nearest-even) is within 4 u max(|start|,|end|), u = 2^-53, of the exact value, for 2 <= n, 0 <= i <= n-1,
    n-1 < 2^53 (integers exact).  First for FLX-53 (binary64 with unbounded exponent: no overflow / underflow), then for
    binary64 = FLT(-1074,53) under the explicit guard that the exact arguments of the four roundings are zero or normal
-   (>= 2^-1022); overflow is outside the model. *)
+   (>= 2^-1022); overflow is outside the model: for |endpoint| * (n-1) above f64::MAX (about 1.8e308) the product start*(d-i)
+   overflows to infinity in the code (e.g. Steps(1e306, 1.5e306, 300).value(1) = inf) — the value clauses are claimed only below
+   that magnitude. *)
 Theorem C14_steps_value_float_partial : forall (s e : R) (n i : nat), 2 <= n -> i <= n - 1 -> (INR (n - 1) < 9007199254740992)%R ->
   (Rabs (steps_value FXops s e n i - steps_value Rops s e n i) <= 4 * u53 * Mx s e)%R /\
   (steps_value_guard s e n i -> (Rabs (steps_value F64ops s e n i - steps_value Rops s e n i) <= 4 * u53 * Mx s e)%R).
@@ -189,6 +220,9 @@ Print Assumptions C14_wavelength_frequency.
 Print Assumptions C14_sumdiff.
 Print Assumptions C14_conversions_compose.
 Print Assumptions C14_flat_list.
+Print Assumptions C14_flat_list_generated.
+Print Assumptions C14_wavelength_frequency_descending.
+Print Assumptions C14_from_impls.
 Print Assumptions C14_transpose.
 Print Assumptions C14_transpose_ragged.
 Print Assumptions C14_range_table.
